@@ -66,8 +66,8 @@ CHECKS = {
    note='Equivalence part is solver-decided; row-for-row identity, call-order identity and the read-back clauses (var_value, numeric_value, eval, unused variables inside their domain) are evaluations at one point, reported separately in the evidence. Outside: builder macros, API-supplied constants.',
    ref='DESIGN §3 C16'),
  'C18': dict(cat='other', engine='K', tech='bounded model checking (Kani 0.68 / CBMC 6.11, SAT) of the real arithmetic, value-conversion and span kernels with fully symbolic 64-bit / 32-bit operands, one proof harness per (receiver type, operator, operand kind), per conversion and for InputSpan::span_text',
-   text='Partial claim, kernel level only: for ALL 64-bit operands and every operator / operand-kind combination the real <i64/u64/f64/bool as ApplyOp> implementations return Ok or Err and never panic or trap on overflow (dev profile); integer results equal the mathematical result computed in i128 or the call returns an error; division by zero is an error. These are the value-level totality cases the property rationale names (negation at the type minimum, mixed signed/unsigned arithmetic, int/float casts, division by zero). Also: Primitive::as_integer_cast / as_usize_cast return the mathematical value or an error for every payload (no wrap, no saturation), and InputSpan::span_text returns Ok exactly for spans inside the text on character boundaries for all (start, len) in u32 x u32 (text with 1-, 2-, 3-byte characters; alloc::fmt::format stubbed).',
-   note='NOT claimed: pest, formatter, error rendering beyond span_text, indexing of nested constant arrays (IterableKind::read: no Kani verdict in 900 s, seeded change C18-b is not caught), allocation of user-sized ranges, termination of the pipeline on arbitrary strings - that code cannot be executed symbolically in this sandbox (DESIGN §0). Multiplication harnesses keep one factor fully symbolic and draw the other from a 10-value boundary set. CBMC NaN checks are off (the kernels handle NaN), Rust overflow panics stay on.',
+   text='Partial claim, kernel level only: for ALL 64-bit operands and every operator / operand-kind combination the real <i64/u64/f64/bool as ApplyOp> implementations return Ok or Err and never panic or trap on overflow (dev profile); integer results equal the mathematical result computed in i128 or the call returns an error; division by zero is an error. These are the value-level totality cases the property rationale names (negation at the type minimum, mixed signed/unsigned arithmetic, int/float casts, division by zero). Also: Primitive::as_integer_cast / as_usize_cast return the mathematical value or an error for every payload (no wrap, no saturation), and InputSpan::span_text returns Ok exactly for spans inside the text on character boundaries for all (start, len) in u32 x u32 (text with 1-, 2-, 3-byte characters; alloc::fmt::format stubbed); IterableKind::read returns Err for every two-index path into a nested array whose outer level is empty and Ok exactly for in-range single indexes into a flat array.',
+   note='NOT claimed: pest, formatter, error rendering beyond span_text, indexing of nested constant arrays beyond the two idx harnesses (IterableKind::read with a non-empty outer level: no Kani verdict in 900 s), allocation of user-sized ranges, termination of the pipeline on arbitrary strings - that code cannot be executed symbolically in this sandbox (DESIGN §0). Multiplication harnesses keep one factor fully symbolic and draw the other from a 10-value boundary set. CBMC NaN checks are off (the kernels handle NaN), Rust overflow panics stay on.',
    ref='DESIGN §3 C18, §9.2'),
 }
 NA = {
